@@ -640,6 +640,17 @@ func tagsStructured(c *cx, id string, pkgs []string) int {
 						continue
 					}
 					name := strings.Split(tag, ",")[0]
+					// text content is decoded with ,chardata: ,innerxml hands back the
+					// escaped source text (a&amp;b) and stays empty when the decoder
+					// reads tokens instead of bytes (xml.NewTokenDecoder, which is how
+					// received stream errors are decoded)
+					for _, opt := range strings.Split(tag, ",")[1:] {
+						if ft, isId := fld.Type.(*ast.Ident); opt == "innerxml" && isId && ft.Name == "string" {
+							// ([]byte fields capture raw XML on purpose: extensions, smuggling checks)
+							n++
+							c.r.CheckNamed(id, strings.TrimPrefix(pk.PkgPath, eng.ModPath+"/"), "struct tag option innerxml", "K: character data of stanza and stream elements is decoded with ,chardata, never ,innerxml", fld.Tag.Pos(), false, "innerxml keeps XML escapes in the text and is empty for token decoders: the decoded text differs from the text that was encoded")
+						}
+					}
 					if name == "" {
 						continue
 					}
@@ -1225,4 +1236,54 @@ func decodedDurationsBounded(c *cx, id string, in func(f *eng.Fn) bool) int {
 		})
 	}
 	return n
+}
+
+// historyPageSlotAgreement (C19.31, sibling agreement): history.Query carries
+// the page position in one field and the decoder says which: the field that
+// UnmarshalXML fills from the result set's <before/> is the field that
+// TokenReader writes into RequestPrev.Before, and likewise for <after/> and
+// RequestNext.After. (Before: f.BeforeID, another string field of the same
+// struct - a filter, not the page position - compiles and loses the page.)
+func historyPageSlotAgreement(c *cx, id string) {
+	dec := c.fn(id, "history", "(*Query).UnmarshalXML")
+	enc := c.fn(id, "history", "(*Query).TokenReader")
+	if dec == nil || enc == nil {
+		return
+	}
+	// decoder: recv.F = <... .Set.Before ...> / <... .Set.After>
+	fromSlot := map[string]string{}
+	dg := dec.Graph()
+	for _, w := range dec.Writes() {
+		lhs := dec.Norm(w.LHS, nil)
+		if w.RHS == nil || !strings.HasPrefix(lhs, "recv.") {
+			continue
+		}
+		pt, _ := dg.Where(w.Stmt)
+		r := dec.Norm(w.RHS, &pt)
+		if _, isBool := dec.Info().TypeOf(w.RHS).Underlying().(*types.Basic); isBool && dec.Info().TypeOf(w.RHS).Underlying().(*types.Basic).Kind() == types.Bool {
+			continue
+		}
+		switch {
+		case strings.HasSuffix(r, ".Set.Before.ID") || strings.HasSuffix(r, ".Set.Before"):
+			fromSlot["Before"] = lhs
+		case strings.HasSuffix(r, ".Set.After"):
+			fromSlot["After"] = lhs
+		}
+	}
+	n := 0
+	eg := enc.Graph()
+	for _, k := range []struct{ typ, slot string }{{"paging.RequestPrev", "Before"}, {"paging.RequestNext", "After"}} {
+		for _, lit := range enc.WalkLits(k.typ) {
+			v := structLitField(lit, k.slot)
+			if v == nil {
+				continue
+			}
+			n++
+			pt, _ := eg.Where(lit)
+			got := enc.Norm(v, &pt)
+			want := fromSlot[k.slot]
+			c.r.Check(id, enc, "field written into "+k.typ+"."+k.slot, "sibling agreement: the encoder writes the page position from the field the decoder fills from <"+strings.ToLower(k.slot)+"/>", v.Pos(), want != "" && got == want, "encoder writes "+got+", decoder fills "+want)
+		}
+	}
+	c.r.Floor(id, "page position slots in history.Query.TokenReader", n, 2)
 }
